@@ -241,11 +241,11 @@ Proof.
   intros I B Il Lg H. destruct l.
   - simpl in H. eapply binv_start; eauto.
   - simpl in H. eapply binv_tstep; eauto.
-  - eapply binv_sched; eauto. exact Logic.I.
-  - eapply binv_sched; eauto. exact Logic.I.
-  - eapply binv_sched; eauto. exact Logic.I.
+  - eapply binv_sched; eauto; exact Logic.I.
+  - eapply binv_sched; eauto; exact Logic.I.
+  - eapply binv_sched; eauto; exact Logic.I.
   - simpl in H. destruct Il as (_&_&_&It). eapply binv_vstep; eauto.
-  - eapply binv_sched; eauto. exact Logic.I.
+  - eapply binv_sched; eauto; exact Logic.I.
 Qed.
 
 Lemma binv_init c o ths nv : binv (init c o ths nv).
